@@ -17,10 +17,7 @@ pub(crate) fn set_now(secs: u64, nanos: u32) { unsafe { NOW_SECS = secs; NOW_NAN
 pub(crate) fn clock() -> ClockType { Box::new(VkClock) }
 pub(crate) fn time(secs: u64, nanos: u32) -> SystemTime { UNIX_EPOCH + Duration::new(secs, nanos) }
 
-/// (secs, nanos) of a SystemTime at or after the epoch
-pub(crate) fn parts(t: SystemTime) -> (u64, u32) {
-    let d = t.duration_since(UNIX_EPOCH).unwrap();
-    (d.as_secs(), d.subsec_nanos())
-}
+// NOTE: never decompose a SystemTime in a harness (duration_since + Duration accessors stall CBMC:
+// > 60 s for one call); build the expected SystemTime from (secs, nanos) with `time()` and compare.
 
 pub(crate) fn any_nanos() -> u32 { let n: u32 = kani::any(); kani::assume(n < 1_000_000_000); n }
